@@ -377,26 +377,13 @@ func errorPathAppendOnlyRule(p *Prog, r *Report, id string) {
 				return
 			}
 			nret++
-			v := ret.Results[0]
-			if ct, ok := v.(*ssa.ChangeType); ok {
-				v = ct.X
-			}
-			a, b, ok := builtinAppend(v)
+			base, _, ok := appendOneShape(ret.Results[0], 0)
 			if !ok {
-				bad = p.PosStr(ret.Pos()) + ": returns something other than append(path, element) — the element is not recorded on this path"
+				bad = p.PosStr(ret.Pos()) + ": returns something other than append(path, <one element>) — the element is not recorded on this path"
 				return
 			}
-			recv := a
-			if ct, ok := recv.(*ssa.ChangeType); ok {
-				recv = ct.X
-			}
-			if _, isPrm := recv.(*ssa.Parameter); !isPrm {
+			if _, isPrm := base.(*ssa.Parameter); !isPrm {
 				bad = p.PosStr(ret.Pos()) + ": the element is not appended to the received path"
-			}
-			if sl, ok := b.(*ssa.Slice); !ok {
-				bad = p.PosStr(ret.Pos()) + ": more or less than one element is appended"
-			} else if arr, ok := sl.X.(*ssa.Alloc); !ok || arrayLen(arr) != 1 {
-				bad = p.PosStr(ret.Pos()) + ": more or less than one element is appended"
 			}
 		})
 		if bad != "" {
@@ -539,7 +526,8 @@ func overrideOverlapRule(p *Prog, r *Report, id string) {
 	for _, dir := range []int{0, 1} {
 		dir := dir
 		nCall := 0
-		sc := &absScenario{
+		var sc *absScenario
+		sc = &absScenario{
 			entry:  body,
 			stopAt: func(b *ssa.BasicBlock) bool { return b == header },
 			onStop: func(map[string]absVal) bool { return true },
@@ -548,7 +536,8 @@ func overrideOverlapRule(p *Prog, r *Report, id string) {
 					return aUnknown, false
 				}
 				// direction 0: (entry, new) holds, the reverse is unknown; direction 1: the other way round
-				fromNew := rootIsParam(c.Call.Args[0])
+				// (inside a helper the arguments are parameters: what the caller passed decides)
+				fromNew := rootIsParamOf(c.Call.Args[0], sf, sc)
 				nCall++
 				if (dir == 0 && !fromNew) || (dir == 1 && fromNew) {
 					return aBool(true), true
@@ -574,11 +563,11 @@ func overrideOverlapRule(p *Prog, r *Report, id string) {
 	}
 }
 
-// rootIsParam: v is <param>.…Context loaded from a parameter of the function (the new definition), as opposed to
+// rootIsParamOf: v is <param>.…Context loaded from a parameter of the function (the new definition), as opposed to
 // the loop's entry.
-func rootIsParam(v ssa.Value) bool {
+func rootIsParamOf(v ssa.Value, fn *ssa.Function, sc *absScenario) bool {
 	cur := v
-	for {
+	for i := 0; i < 16; i++ {
 		switch x := cur.(type) {
 		case *ssa.UnOp:
 			cur = x.X
@@ -587,10 +576,18 @@ func rootIsParam(v ssa.Value) bool {
 			cur = x.X
 			continue
 		case *ssa.Parameter:
-			return true
+			if x.Parent() == fn {
+				return true
+			}
+			// a parameter of a helper being walked: what the caller passed
+			if o := scOrigin(sc, x); o != ssa.Value(x) {
+				cur = o
+				continue
+			}
 		}
 		return false
 	}
+	return false
 }
 
 // ---------------------------------------------------------------------------
@@ -625,4 +622,77 @@ func argsUnmodifiedRule(p *Prog, r *Report, id string) {
 	if n == 0 {
 		r.Bad("cmd/goverter.main/cli.Run", p.PosStr(fi.Decl.Pos()), "no call of cli.Run found")
 	}
+}
+
+// appendOneShape: v is append(<base>, <one element>) — directly, or as the result of an unexported helper of package
+// builder whose every return is append(<its first parameter>, <its second parameter>).  Returns the base, the element
+// value and ok.
+func appendOneShape(v ssa.Value, depth int) (base, elem ssa.Value, ok bool) {
+	if ct, isCT := v.(*ssa.ChangeType); isCT {
+		v = ct.X
+	}
+	if a, b, isApp := builtinAppend(v); isApp {
+		sl, isSl := b.(*ssa.Slice)
+		if !isSl {
+			return nil, nil, false
+		}
+		arr, isArr := sl.X.(*ssa.Alloc)
+		if !isArr || arrayLen(arr) != 1 || arr.Referrers() == nil {
+			return nil, nil, false
+		}
+		for _, ref := range *arr.Referrers() {
+			if ia, isIA := ref.(*ssa.IndexAddr); isIA && ia.Referrers() != nil {
+				for _, r2 := range *ia.Referrers() {
+					if st, isSt := r2.(*ssa.Store); isSt && st.Addr == ia {
+						elem = st.Val
+					}
+				}
+			}
+		}
+		if ct, isCT := a.(*ssa.ChangeType); isCT {
+			a = ct.X
+		}
+		return a, elem, elem != nil
+	}
+	c, isCall := v.(*ssa.Call)
+	if !isCall || depth > 1 {
+		return nil, nil, false
+	}
+	callee := c.Call.StaticCallee()
+	if callee == nil || callee.Object() == nil || callee.Object().Exported() || len(callee.Params) != 2 || len(c.Call.Args) != 2 || len(callee.Blocks) == 0 {
+		return nil, nil, false
+	}
+	n := 0
+	for _, b := range callee.Blocks {
+		for _, in := range b.Instrs {
+			ret, isRet := in.(*ssa.Return)
+			if !isRet || len(ret.Results) != 1 {
+				continue
+			}
+			n++
+			hb, he, hok := appendOneShape(ret.Results[0], depth+1)
+			if !hok || hb != ssa.Value(callee.Params[0]) || he != ssa.Value(callee.Params[1]) {
+				return nil, nil, false
+			}
+		}
+	}
+	if n == 0 {
+		return nil, nil, false
+	}
+	a := c.Call.Args[0]
+	if ct, isCT := a.(*ssa.ChangeType); isCT {
+		a = ct.X
+	}
+	return a, c.Call.Args[1], true
+}
+
+// elemTypeName: the concrete type of a path element value (through the interface conversion).
+func elemTypeName(v ssa.Value) string {
+	if mi, ok := v.(*ssa.MakeInterface); ok {
+		v = mi.X
+	}
+	if n := namedOf(derefType(v.Type())); n != nil {
+		return n.Obj().Name()
+	}
+	return ""
 }
